@@ -29,6 +29,9 @@ pub fn alphabet(thorough: bool) -> Vec<(&'static str, &'static str)> {
         ("star-only-block-comment", "/***/"),
         // inside a block comment "--" means nothing: the comment is closed on a line that starts with dashes
         ("block-comment-closed-on-dashed-line", "/* a\n-- b */"),
+        // a quotation mark within a comment opens no character string
+        ("line-comment-containing-quote", "-- \"\n"),
+        ("block-comment-containing-quote", "/* \" */"),
         ("empty", ""),
     ];
     if thorough {
